@@ -148,7 +148,7 @@ def rule_batch(chk):
             batch.report(chk, "grad-batch-index", bf)
 
 
-def analyse(chk):
+def _analyse_own(chk):
     chk.rule("unsupported-raise", "SDMX / NLOF models raise NotImplementedError before any eval_xc_cider call")
     chk.rule("dispatch-total", "nuc_grad_method returns a matching Gradients class or raises on every path")
     chk.rule("grad-half", "density / tau rows of the weighted potential halved exactly once before the contraction")
@@ -165,6 +165,12 @@ def analyse(chk):
                         "loops around a guard or a halving run at least once"]
     chk.not_decided += ["equality of the forces with finite differences of the energy", "the translational sum rule",
                         "correctness of grad_mode in the generator/interpolator and of the C gradient kernels"]
+
+
+def analyse(chk):
+    _analyse_own(chk)
+    chk.guard(lambda c_: core.include_findings(c_, 'C10', files=['ciderpress/lib/mod_cider/conv_interpolation.c'], rules=None,
+                                               why='a data race in the gradient-term kernels makes forces schedule dependent'))
 
 
 def mutants(tree):
